@@ -287,6 +287,23 @@ func runCase(r *mon.Run, g *group, c Case, rng *rand.Rand, ns *netStub) {
 			var s groupsig.Signature
 			s.Deserialize(make([]byte, 64))
 			blockSig = s
+		case "relabelled-share":
+			// the member's genuine share over ANOTHER block hash, which this node has verified a moment
+			// ago in the round of that other block (a competing proposal at the same height), sent
+			// again labelled as a share over this block (BlockHash = data hash = this block's hash)
+			other := groupsig.Sign(sk, otherHash.Bytes())
+			prelude := &model.ConsensusVerifyMessage{BlockHash: otherHash, Id: fmt.Sprintf("x%d-%d", c.Seq, mi)}
+			prelude.SignInfo = model.MakeSignInfo(otherHash, other, id, common.ConsensusVersion)
+			prelude.RandomSign = groupsig.Sign(sk, preRandom)
+			bhX := &types.BlockHeader{Hash: otherHash, Height: 10, GroupId: g.gid.Serialize()}
+			rx := logical.VerifNewRound1(g.info, preBH, bhX, &blockChainStub{}, g.dkg.IDs[0], nil)
+			if err := rx.Start(); err == nil {
+				rx.Update(prelude)
+				if len(rx.BlockShares()) == 1 {
+					r.Count("prelude_rounds_with_verified_share", 1)
+				}
+			}
+			blockSig = other
 		case "offset-pair": // block share + D and beacon share - D: each invalid, their sum is the sum of the valid ones
 			var d groupsig.Seckey
 			db := make([]byte, 32)
@@ -525,7 +542,7 @@ func genCase(rng *rand.Rand, n, k, seq int) Case {
 	for _, i := range rng.Perm(n)[:minInt(h, n)] {
 		msgs = append(msgs, Msg{From: i, Class: "honest"})
 	}
-	classes := []string{"other-hash", "other-hash", "replay-block-share", "garbage", "identity", "bad-beacon", "replay-beacon", "consistent-other-hash", "consistent-other-hash", "signpk-overwrite", "offset-pair", "swapped"}
+	classes := []string{"other-hash", "other-hash", "replay-block-share", "garbage", "identity", "bad-beacon", "replay-beacon", "consistent-other-hash", "consistent-other-hash", "signpk-overwrite", "offset-pair", "swapped", "relabelled-share"}
 	for _, b := range byz {
 		cl := classes[rng.Intn(len(classes))]
 		msgs = append(msgs, Msg{From: b, Class: cl, Aux: (b + 1 + rng.Intn(n-1)) % n})
@@ -675,7 +692,7 @@ func child(args []string) {
 	cnt := 0
 	if mode == "exhaustive" {
 		// n <= 4: one Byzantine message of each class + all honest messages, every arrival order
-		for _, cl := range []string{"other-hash", "replay-block-share", "bad-beacon", "garbage", "consistent-other-hash", "signpk-overwrite", "offset-pair", "swapped"} {
+		for _, cl := range []string{"other-hash", "replay-block-share", "bad-beacon", "garbage", "consistent-other-hash", "signpk-overwrite", "offset-pair", "swapped", "relabelled-share"} {
 			var ms []Msg
 			for i := 0; i < n; i++ {
 				ms = append(ms, Msg{From: i, Class: "honest"})
